@@ -147,6 +147,17 @@ def size_shapes(rnd):
         arms = tuple((leaf(i), _ret(f"c{i}", i)) for i in range(n))
         out.append((f"chain-{n}", R.program(Program("chain", "s", ["u"], If(arms, _ret("e", n)), n + 1, set()))))
         out.append((f"chain-{n}-noelse", R.program(Program("chain", None, ["u"], If(arms, None), n, set()))))
+    # chains inside chains (every chain <= 60 arms, nesting <= 12): the number of arms on one path is the product
+    def chain_text(prefix, n, tail):
+        arms = " ".join(f'{"if" if i == 0 else "else if"} f{i % 7} == {100 + i} {{ return "{prefix}{i}" weighted 1 }}' for i in range(n))
+        return f"{arms} else {{ {tail} }}"
+
+    out.append(("chain-60-in-else-of-chain-60", "def cc { splitters: u " + chain_text("a", 60, chain_text("b", 60, 'return "e" weighted 1, "e2" weighted 1')) + " }"))
+    out.append(("chain-35-x3-nested", "def cc { splitters: u " + chain_text("a", 35, chain_text("b", 35, chain_text("c", 35, 'return "e" weighted 1'))) + " }"))
+    t = 'return "e" weighted 1, "e2" weighted 3'
+    for lvl in range(12):
+        t = chain_text(f"l{lvl}_", 10, t)
+    out.append(("chain-10-x12-nested", "def cc { splitters: u " + t + " }"))
     # nesting
     for d in (6, 12):
         o = [0]
